@@ -258,4 +258,46 @@ func init() {
 	)
 }
 
+func mapOrders(ex *eng.Explorer, tier string) { ex.MapOrders = true; ex.MapOrderMax = 3 }
+
+func init() {
+	props = append(props,
+		Prop{
+			ID: "C10",
+			Runs: []Run{
+				{Harness: "zzverif/zzh.ZZC10Stress1", Desc: "two packages full of constructs the checkers do not specialise for (generic types/functions, func/array/interface/anonymous-struct types, embedded fields, unnamed and blank receivers, labels, method expressions and values, type switches, double pointers, map/slice element selectors, universe-type methods, package-level initialiser); ANY of 10 comment spellings (6 keywords, @ignore ALL, unknown qualifier...) on any one of 10 declarations; all five analyzers on both packages: every path ends normally", Bounds: map[string]interface{}{"declarations": 10, "annotated_at_a_time": 1, "spellings": 10}},
+				{Harness: "zzverif/zzh.ZZC10Stress2", Tier: "thorough", Desc: "the same with any two declarations annotated", Bounds: map[string]interface{}{"annotated_at_a_time": 2}},
+				{Harness: "zzverif/zzh.ZZC01Init", Desc: "package-level initialisers before any function (the nil-dereference fixed in b62e6d5)", Bounds: map[string]interface{}{}},
+			},
+			Outside:     []string{"any compilable package beyond the listed skeletons (real-world corpora are not a solver task)", "wall-clock hangs inside the x/tools drivers", "cgo"},
+			Assumptions: []string{"no-panic, in-range indexing, successful type assertions, no nil-map writes and the unwinding assertions are implicit assertions on EVERY path of EVERY harness of every property; this check adds programs built to provoke them"},
+		},
+		Prop{
+			ID: "C06",
+			Runs: []Run{
+				{Harness: "analyzer.ZZC06Export", Desc: "each of the five run*Checker functions with arbitrary local annotations (every list empty or not, package-not-found flag): ExportPackageFact is called exactly once on every path, with the package's annotations, before any early return", Bounds: map[string]interface{}{"checkers": 5, "annotation_lists": "2^6 presence combinations"}},
+				{Harness: "analyzer.ZZC06Reader", Desc: "runAnnotationReader exports what it read; allow-lists travel complete and in order", Bounds: map[string]interface{}{"spellings": 4}},
+				{Harness: "zzverif/zzh.ZZC06Merge", Desc: "importer with 5 direct imports, any subset of which exports a fact (two of the facts carry annotations with arbitrary names): all six indices = local annotations + facts of the direct imports, filed under the declaring package's path", Bounds: map[string]interface{}{"imports": 5, "fact_subsets": "2^5", "names": "opaque atoms"}},
+				{Harness: "zzverif/zzh.ZZCrossImmCtor", Desc: "annotations of d (incl. @mutable fields, constructor lists) take effect in the importer u as in d", Bounds: map[string]interface{}{}},
+				{Harness: "zzverif/zzh.ZZC04Cross", Desc: "allow-lists take effect in the importer", Bounds: map[string]interface{}{}},
+			},
+			Outside: []string{"identity of results between the standalone binary, go vet -vettool and in-process drivers; gob serialisation of facts to disk; independence from the set of packages named on the command line — properties of x/tools' drivers, separate processes and files on disk, not encodable here",
+				"import DAGs deeper than the direct-import step (each step is the same code)"},
+			Assumptions: []string{"facts are passed in-process by the harness' ImportPackageFact (no gob)"},
+		},
+		Prop{
+			ID: "C11",
+			Runs: []Run{
+				{Harness: "analyzer.ZZC11Config", GlobalWriteMonitor: true, Desc: "two package actions in either order (plus a repeat) obtain the same configuration object = resolution of the flags; the cache is written only inside sync.Once", Bounds: map[string]interface{}{"actions": 3, "orders": 2, "flag_values": "2x3"}},
+				{Harness: "analyzer.ZZC06Export", GlobalWriteMonitor: true, Desc: "shared-state monitor over all five run*Checker functions: no store to package-level state (or to objects allocated by package initialisers) outside sync.Once / a held lock", Bounds: map[string]interface{}{}},
+				{Harness: "zzverif/zzh.ZZC08AllCheckers", GlobalWriteMonitor: true, Setup: mapOrders, Desc: "all checkers on the all-codes program with EVERY iteration order of every native map of <=3 entries explored as nondeterminism: the diagnostics (position, code) are the same under every order; shared-state monitor on", Bounds: map[string]interface{}{"map_orders": "all permutations of maps with <= 3 entries (larger maps: one order)"}},
+				{Harness: "zzverif/zzh.ZZC04Cross", GlobalWriteMonitor: true, Setup: mapOrders, Tier: "thorough", Desc: "packageonly index and allow-lists under all map iteration orders", Bounds: map[string]interface{}{}},
+			},
+			Outside: []string{"real goroutine interleavings inside the drivers and race-detector runs; data races in x/tools itself: not encodable (the claim decided here is: no shared mutable state besides the once-initialised configuration, and results independent of map iteration order; by sync.Once's happens-before guarantee whole-package actions then commute)",
+				"iteration order of maps with more than 3 entries", "byte comparison of message texts across orders (positions and codes are compared)"},
+			Assumptions: []string{"regexp.Regexp and the Aho-Corasick matchers (only Contains is used) are safe for concurrent readers", "sync.Once.Do / Mutex modelled as run-once / critical section"},
+		},
+	)
+}
+
 var _ = eng.RepoMod
